@@ -84,7 +84,7 @@ inductive Ev (α : Type) where
   | out (i : Nat) (v : α)
   /-- `assert flow_was_empty` failed (split.py:403) — never happens, see `Props/C03.lean` -/
   | assertFail
-  deriving Repr
+  deriving Repr, DecidableEq
 
 variable {σ α : Type}
 
@@ -424,6 +424,20 @@ def splitFrBlocks : List (Branch σ α) → List (List α) → List (List α) ×
       let r' := splitFrBlocks r.2 rest
       (r.1 :: r'.1, r'.2)
 
+/-- A `Split` whose branches share the fill/compute (fill/request) type has `fill` and `compute`
+(`request`), so `_get_seq_with_type` of an enclosing `Split` classifies it as a fill/compute
+(fill/request) element.  Its methods as `Ops` over the list of its branches: `fill = _fill`,
+`compute = _compute`, `request = _request`, `__call__`.  The enclosing `Split` never calls `run`
+of a fill/compute or fill/request branch (`stepBranch`, `finalPass`), so `run` is left out
+(running a `Split` twice needs the states of the branches it dropped, which `Split.runTrace`
+does not return). -/
+def splitOps : Ops (List (Branch σ α)) α :=
+  { call := splitCallLoop
+    fill := fun brs x => splitFill x brs
+    compute := splitCompute
+    request := splitRequest
+    run := fun brs _ => ([], brs) }
+
 /-! ## classification of the arguments: `_get_seq_with_type` (split.py:17-71) -/
 
 /-- the callable attributes of one element object that the constructors look at -/
@@ -756,5 +770,67 @@ def mkHarnessBranches (start : Nat) : List BSpec → List (Branch BState V)
   | [] => []
   | sp :: rest =>
     { id := start, kind := sp.kind, ops := sp.ops start, st := {} } :: mkHarnessBranches (start + 1) rest
+
+/-! ### a common-type Split as a branch (one level of nesting) -/
+
+/-- state of a branch of the enclosing Split: a harness element, or a nested Split -/
+inductive NState where
+  | plain (s : BState)
+  | nested (brs : List (Branch BState V))
+
+/-- a harness element as a branch of the enclosing Split -/
+def liftOps (o : Ops BState V) : Ops NState V :=
+  { call := fun s => match s with
+      | .plain b => ((o.call b).1, .plain (o.call b).2)
+      | n => ([], n)
+    fill := fun s x => match s with
+      | .plain b => (.plain (o.fill b x).1, (o.fill b x).2)
+      | n => (n, false)
+    compute := fun s => match s with
+      | .plain b => ((o.compute b).1, .plain (o.compute b).2)
+      | n => ([], n)
+    request := fun s => match s with
+      | .plain b => ((o.request b).1, .plain (o.request b).2)
+      | n => ([], n)
+    run := fun s buf => match s with
+      | .plain b => ((o.run b buf).1, .plain (o.run b buf).2)
+      | n => ([], n) }
+
+/-- a nested Split as a branch of the enclosing Split: `splitOps` on its branches -/
+def nestOps : Ops NState V :=
+  { call := fun s => match s with
+      | .nested brs => ((splitOps.call brs).1, .nested (splitOps.call brs).2)
+      | n => ([], n)
+    fill := fun s x => match s with
+      | .nested brs => (.nested (splitOps.fill brs x).1, (splitOps.fill brs x).2)
+      | n => (n, false)
+    compute := fun s => match s with
+      | .nested brs => ((splitOps.compute brs).1, .nested (splitOps.compute brs).2)
+      | n => ([], n)
+    request := fun s => match s with
+      | .nested brs => ((splitOps.request brs).1, .nested (splitOps.request brs).2)
+      | n => ([], n)
+    run := fun s _ => ([], s) }
+
+/-- a branch of the enclosing Split in a harness case -/
+inductive OSpec where
+  | plain (sp : BSpec)
+  /-- `Split([inner…])` with a common type; its branches carry the tags `100*(tag+1) + j` -/
+  | nest (inner : List BSpec)
+
+/-- the kind `_get_seq_with_type` gives a nested common-type Split: it has `fill` and `compute`
+(all inner branches fill/compute) or `fill` and `request` (all fill/request) -/
+def nestKind (inner : List BSpec) : Kind :=
+  if (methodsOf (inner.map BSpec.kind)).compute then .fillCompute else .fillRequest
+
+def mkOuterBranches (start : Nat) : List OSpec → List (Branch NState V)
+  | [] => []
+  | .plain sp :: rest =>
+    { id := start, kind := sp.kind, ops := liftOps (sp.ops start), st := .plain {} } ::
+      mkOuterBranches (start + 1) rest
+  | .nest inner :: rest =>
+    { id := start, kind := nestKind inner, ops := nestOps,
+      st := .nested (mkHarnessBranches (100 * (start + 1)) inner) } ::
+      mkOuterBranches (start + 1) rest
 
 end Lena.C03
